@@ -86,9 +86,13 @@ def make_case(unit):
         rel = corpus.fixture_paths()[unit["corpus"]]
         g = gen.G("C10/corpus/%s/%s/%s" % (unit["seed"], unit["corpus"], unit["rep"]))
         resp = corpus.load(rel)
-        return {"fixture": rel, "population": 1000,
-                "transforms": {} if unit["rep"] == 0 and unit["corpus"] % 2 else
-                corpus.random_full_transforms(g, resp)}
+        tr = {} if unit["rep"] == 0 and unit["corpus"] % 2 else \
+            corpus.random_full_transforms(g, resp)
+        for key in ("rows_dimension", "columns_dimension"):
+            od = (tr.get(key) or {}).get("order") or {}
+            if od.get("type") == "opposing_element":
+                od["measure"] = "count_unweighted"  # integers: ties are ties on both sides
+        return {"fixture": rel, "population": 1000, "transforms": tr}
     i = unit["i"]
     g = gen.G("C10/%s/%s" % (unit["seed"], i))
     template = TEMPLATES[i % len(TEMPLATES)]
@@ -107,12 +111,12 @@ def make_case(unit):
         cases.add_total_subtotals(facets, tr)
     spec = sim.CubeSpec(facets, g.weights(N, wmode), mset, g.num(N) if mset else None)
     if g.chance(0.5):
-        _both_way_transforms(g, spec, tr)
+        _both_way_transforms(g, spec, tr, exact=wmode != "float")
     return {"template": template, "spec": sim.spec_to_dict(spec), "transforms": tr,
             "population": 1000, "mask_size": g.pick([0, 4, 9])}
 
 
-def _both_way_transforms(g, spec, tr):
+def _both_way_transforms(g, spec, tr, exact=True):
     o = sim.Oracle(spec)
     nd = o.ndim
     measures = ["count_weighted", "count_unweighted", "table_percent", "z_score", "p_value",
@@ -129,9 +133,12 @@ def _both_way_transforms(g, spec, tr):
             dd["elements"] = els
         if g.chance(0.3):
             dd["prune"] = True
+        # with weights that are not exactly representable two mathematically equal sort
+        # values (two subtotals with the same members) differ in their last bit, differently
+        # for a table and its transpose: no sort-by-value orders there
         order = T.random_order(g, ids, [], oids, osub, "cols", False, measures,
-                               kinds=["none", "explicit", "payload_order", "label",
-                                      "opposing_element", "opposing_insertion"])
+                               kinds=["none", "explicit", "payload_order", "label"] + (
+                                   ["opposing_element", "opposing_insertion"] if exact else []))
         if order:
             dd["order"] = order
         if not dd:
